@@ -3,6 +3,7 @@ import Genshi.WireCore
 import Genshi.Model.I18nTranslate
 import Genshi.Model.I18nExtract
 import Genshi.Model.I18nChoose
+import Genshi.Model.I18nPyExpr
 namespace Driver.C19
 open Genshi Genshi.I18n Genshi.Sexp
 
@@ -163,7 +164,31 @@ partial def streamOk : TStream → Bool
   | .sub ds body :: es => dirsOk ds && streamOk body && streamOk es
   | _ :: es => streamOk es
 
+/-! wire format of Python syntax trees (harness/props/c19.py `py_wire`):
+    ( PS "s" )  ( PB "s"|N )  ( PN "id" )  ( PC func ( arg ... ) ( kwvalue ... ) )  ( PX ( child ... ) )
+    `( PB N )` is a bytes literal that is no utf-8: the model has no such tree (`none` of the
+    inner option) and the verb answers `unmodelled`. -/
+partial def pyExpr? : Sexp → Option (Option PyExpr)
+  | .list [.atom "PS", .str s] => some (some (.str s))
+  | .list [.atom "PB", .str s] => some (some (.bytes s))
+  | .list [.atom "PB", .atom "N"] => some none
+  | .list [.atom "PN", .str s] => some (some (.name s))
+  | .list [.atom "PC", f, .list args, .list kws] => do
+      let f ← pyExpr? f
+      let args ← args.mapM pyExpr?
+      let kws ← kws.mapM pyExpr?
+      pure (do let f ← f; let args ← args.mapM id; let kws ← kws.mapM id; pure (.call f args kws))
+  | .list [.atom "PX", .list cs] => do
+      let cs ← cs.mapM pyExpr?
+      pure (do let cs ← cs.mapM id; pure (.node cs))
+  | _ => none
+
 def handle : List Sexp → Option Sexp
+  | [.atom "pycode", .list gf, e] => do
+      let gf ← strs? gf
+      match ← pyExpr? e with
+      | none => pure (.atom "unmodelled")
+      | some e => pure (codeMsgsOut (extractFromCode gf e))
   | [.atom "translate", cfg, cat, ctx, tt, ta, s] => do
       let cfg ← cfg? cfg; let cat ← cat? cat; let ctx ← ctx? ctx
       let tt ← tt.toBool?; let ta ← ta.toBool?; let s ← tstream? s
